@@ -555,6 +555,42 @@ cdef("gs_444", ["yh", "yv", "i"], g.group(1), "math", "getSubsamp: luma factors 
 B.find(r"if \(dinfo->comp_info\[k\]\.h_samp_factor ==" + W + r"dinfo->comp_info\[0\]\.h_samp_factor &&" + W +
        r"dinfo->comp_info\[k\]\.v_samp_factor ==" + W + r"dinfo->comp_info\[0\]\.v_samp_factor\)" + W + r"match\+\+;", "chroma factors equal to the luma ones")
 
+
+# ------------------------------------------------------------------ which geometry the unified splitters use, and the 2.x wrappers' plumbing
+# tj3DecompressToYUV8 must derive subsamp/dimensions from the CURRENT header whether or not the caller has already
+# read it (the 2.x wrappers read the header themselves and enter with global_state == DSTATE_READY)
+B = Body("tj3DecompressToYUV8")
+B.find(r"if \(dinfo->global_state <= DSTATE_INHEADER\) \{" + W + r"jpeg_mem_src_tj\(dinfo, jpegBuf, jpegSize\);" + W +
+       r"jpeg_read_header\(dinfo, TRUE\);" + W + r"\}" + W + r"setDecompParameters\(this\);" + W +
+       r"if \(this->subsamp == TJSAMP_UNKNOWN\)", "setDecompParameters(this) unconditionally after the conditional header read")
+B = Body("tj3DecompressToYUVPlanes8")
+B.find(r"if \(dinfo->global_state <= DSTATE_INHEADER\) \{" + W + r"jpeg_mem_src_tj\(dinfo, jpegBuf, jpegSize\);" + W +
+       r"jpeg_read_header\(dinfo, TRUE\);" + W + r"\}" + W + r"setDecompParameters\(this\);", "setDecompParameters(this) unconditionally after the conditional header read")
+LEGACY = [
+    ("tjBufSizeYUV2", [r"tj3YUVBufSize\(width, align, height, subsamp\)"]),
+    ("tjPlaneSizeYUV", [r"tj3YUVPlaneSize\(componentID, width, stride, height, subsamp\)"]),
+    ("tjPlaneWidth", [r"tj3YUVPlaneWidth\(componentID, width, subsamp\)"]),
+    ("tjPlaneHeight", [r"tj3YUVPlaneHeight\(componentID, height, subsamp\)"]),
+    ("tjDecompressToYUV2", [r"jpeg_read_header\(dinfo, TRUE\);", r"if \(tj3SetScalingFactor\(handle, sf\[i\]\) == -1\)",
+                            r"return tj3DecompressToYUV8\(handle, jpegBuf, \(size_t\)jpegSize, dstBuf, align\);"]),
+    ("tjDecompressToYUV", [r"return tjDecompressToYUV2\(handle, jpegBuf, jpegSize, dstBuf, 0, 4, 0, flags\);"]),
+    ("tjDecompressToYUVPlanes", [r"jpeg_read_header\(dinfo, TRUE\);", r"if \(tj3SetScalingFactor\(handle, sf\[i\]\) == -1\)",
+                                 r"return tj3DecompressToYUVPlanes8\(handle, jpegBuf, jpegSize, dstPlanes," + W + r"strides\);"]),
+    ("tjEncodeYUV3", [r"this->subsamp = subsamp;", r"return tj3EncodeYUV8\(handle, srcBuf, width, pitch, height, pixelFormat," + W + r"dstBuf, align\);"]),
+    ("tjEncodeYUVPlanes", [r"this->subsamp = subsamp;", r"return tj3EncodeYUVPlanes8\(handle, srcBuf, width, pitch, height, pixelFormat," + W + r"dstPlanes, strides\);"]),
+    ("tjDecodeYUV", [r"this->subsamp = subsamp;", r"return tj3DecodeYUV8\(handle, srcBuf, align, dstBuf, width, pitch, height," + W + r"pixelFormat\);"]),
+    ("tjDecodeYUVPlanes", [r"this->subsamp = subsamp;", r"return tj3DecodeYUVPlanes8\(handle, srcPlanes, strides, dstBuf, width, pitch," + W + r"height, pixelFormat\);"]),
+    ("tjCompressFromYUV", [r"this->subsamp = subsamp;", r"retval = tj3CompressFromYUV8\(handle, srcBuf, width, align, height, jpegBuf," + W + r"&size\);"]),
+    ("tjCompressFromYUVPlanes", [r"this->subsamp = subsamp;", r"retval = tj3CompressFromYUVPlanes8\(handle, srcPlanes, width, strides, height," + W + r"jpegBuf, &size\);"]),
+]
+for fn, pats in LEGACY:
+    B = Body(fn)
+    for rx in pats:
+        B.find(rx, "2.x wrapper plumbing")
+OUT.append("(* 2.x wrappers whose forwarding to the tj3 functions (same geometry arguments, subsamp stored first) was checked in the source text;")
+OUT.append("   tj3DecompressToYUV8 / tj3DecompressToYUVPlanes8 derive subsamp and dimensions from the current header unconditionally *)")
+OUT.append("Definition legacy_wrappers_checked : Z := %d.\n" % len(LEGACY))
+
 # ------------------------------------------------------------------ per-plane codec paths
 B = Body("setCompDefaults")
 g = B.find(r"comp_info\[0\]\.h_samp_factor = " + E + r";" + W + r"this->cinfo\.comp_info\[1\]\.h_samp_factor = 1;" + W +
